@@ -177,7 +177,8 @@ finishUp:
 	// optional exponent moves decimal point.
 	// if we read a very large, very long number,
 	// just be sure to move the decimal point by
-	// a lot (say, 100000).  it doesn't matter if it's
+	// a lot (more than the digits before it could
+	// ever move it back).  it doesn't matter if it's
 	// not the exact number.
 	if p < len(data) && (data[p] == 'e' || data[p] == 'E') {
 		if data[p-1] == '.' {
@@ -200,7 +201,7 @@ finishUp:
 		}
 		e := 0
 		for ; p < len(data) && (data[p] >= '0' && data[p] <= '9'); p++ {
-			if e < 10000 {
+			if e < 10000+len(data) {
 				e = e*10 + int(data[p]) - '0'
 			}
 		}
@@ -308,7 +309,7 @@ func (a *decimal) set(data []byte) (ok bool) {
 			if data[i] < '0' || data[i] > '9' {
 				break
 			}
-			if e < 10000 {
+			if e < 10000+len(data) {
 				e = e*10 + int(data[i]) - '0'
 			}
 		}
